@@ -221,7 +221,8 @@ UpgradeSvc(c, i, sf) ==
 
 \* ---- add_node(count = cnt, requested port range starting at port (0 = none) for `kind`, and -- [C19-2] -- a second
 \*      requested range starting at port2 (0 = none) for another kind kind2).  Each range is checked against the ports the
-\*      registry records (check_port_availability); the ranges are not checked against each other.
+\*      registry records (check_port_availability) and -- since fix 65feffc in /repo -- against each other: two kinds
+\*      asking for an overlapping range would make two services of the batch record the same port.
 ReqSet(cnt, port) == IF port = 0 THEN {} ELSE port .. (port + cnt - 1)
 AddSvc(c, cnt, port, kind, port2, kind2) ==
     LET recorded == UNION {c.reg[j].ports : j \in DOMAIN c.reg}       \* check_port_availability
@@ -242,6 +243,7 @@ AddSvc(c, cnt, port, kind, port2, kind2) ==
                                                                \cup (IF port2 = 0 THEN {} ELSE {port2 + b - 1}),
                                                      ver |-> 1, um |-> FALSE])]
     IN IF (ReqSet(cnt, port) \cup ReqSet(cnt, port2)) \cap recorded # {} THEN Done(c, "Err") ELSE
+       IF ReqSet(cnt, port) \cap ReqSet(cnt, port2) # {} THEN Done(c, "Err") ELSE
        LET r == FoldLeft(One, [reg |-> c.reg, os |-> c.os, k |-> c.k, F |-> c.F, res |-> c.res, failed |-> FALSE],
                          [j \in 1..cnt |-> j])
            out == [reg |-> r.reg, os |-> r.os, k |-> r.k, F |-> r.F, res |-> r.res]
